@@ -114,6 +114,11 @@ class Ho3Stream(FM.FormulaStream):
         for nz in (False, True):
             yield {"kind": "ho3", "tree": ["e", ["s", 0], "-", 1], "nz": nz, "share": False, "src_nz": {"0": False, "1": False},
                    "rows": [{"0:0": 1, "0:1": "none", "0:2": 3, "1:0": 10, "1:1": 20, "1:2": "nan"}, {"0:0": 4, "0:1": 5, "0:2": 6, "1:0": 1, "1:1": 1, "1:2": 1}]}
+        names = [f"{n}:{ph}" for n in (0, 1) for ph in range(3)]
+        for offs in FM.PHASE_OFFSETS:        # every combination of per-phase start offsets
+            yield {"kind": "ho3", "tree": ["e", ["s", 0], "+", 1], "nz": False, "share": False, "src_nz": {"0": False, "1": False},
+                   "pre_rows": FM.phase_pre_rows(rng, names, offs),
+                   "rows": [{n: 100 * k + 10 * int(n[0]) + int(n[2]) for n in names} for k in range(1, 4)]}
         for _ in range(self.n_quick if tier == "quick" else self.n_thorough):
             yield FM.gen_ho3_case(rng)
 
@@ -136,7 +141,7 @@ class Ho3Stream(FM.FormulaStream):
         return json.dumps([case["tree"], case["rows"]], sort_keys=True)
 
     def labels(self, case, obs):
-        return [f"nz={case['nz']}"] + FM.row_labels(case)
+        return [f"nz={case['nz']}"] + (["phases_start_at_different_timestamps"] if case.get("pre_rows") else []) + FM.row_labels(case)
 
 
 class PoolStream(c05.PoolStream):
